@@ -4,15 +4,24 @@
 # xmldsig / config+filetoken+tokencache+signinit.InitKey in process on enumerated small scopes; `c07` runs the real relic
 # binary (`relic sign`) over a matrix of file-token key configurations x signature types and inspects the outputs.
 # Which certificate belongs to which key is known to the harness by construction (it minted them).
+# `c07hist` runs request SEQUENCES inside one process (token/open + tokencache as the server wraps it + signinit.Init + the
+# real signer modules) while the key file / certificate file / PGP certificate are replaced between requests; the model of
+# that mechanism is coq/C07/History.v (op 6 of C07.Run).
 import json, os
 from vlib.common import BUILD, REPO, GOENV, Lock, run as sh
 
 FP = ["lib/x509tools:.SameKey", "lib/certloader:.LoadTokenCertificates", "lib/certloader:.LoadX509KeyPair", "lib/certloader:.parseCertificates",
       "lib/certloader:Certificate.Chain", "lib/certloader:.ParsePKCS12", "lib/pkcs7:SignatureBuilder.Sign", "lib/xmldsig:.Sign", "lib/xmldsig:.finishSignature",
       "internal/signinit:.Init", "token/filetoken:fileToken.GetKey", "signers/apk:Digest.Sign", "lib/fruit/xar:.appendSignatures", "signers/cosign:.sign",
-      "signers/cosign:.attachCertificates", "token/tokencache:Cache.GetKey"]
+      "signers/cosign:.attachCertificates", "token/tokencache:Cache.GetKey", "internal/signinit:.InitKey", "server:Server.serveSign",
+      "cmdline/token:.signCmd", "token/tokencache:.New"]
 KEYFILE = {"R1": 1, "R2": 2, "E1": 3}
 X509TAG = {"cR1": 11, "cR2": 12, "cE1": 13, "cBadForR1": 14}
+KEYID = {"R1": 1, "R2": 2, "E1": 3, "E2": 4, "E3": 5, "ED": 6}
+# history signers: model site id (X.509) or PGP argument class, CertTypes, PGP?
+HIST_SIGNERS = {"cosign": (12, 1, False), "apk": (11, 1, False), "pgp": (5, 2, True), "rpm": (6, 2, True), "deb": (5, 2, True),
+                "ps": (1, 1, False), "jar": (4, 1, False), "appmanifest": (8, 1, False), "vsix": (10, 1, False)}
+EXACT_ERR = (1, 3, 4, 5, 6, 11)
 # refusals of matching configurations for reasons that have nothing to do with the key/certificate relation (refusing is always safe)
 OTHER_REFUSALS = ["unable to find issuer certificate in chain"]
 
@@ -57,13 +66,142 @@ def resolve(keys, name):
     return k
 
 
+def fid(f):
+    """logical file name of a history (kf<n> key file, xf<n> X.509 file, pf<n> PGP file) -> file number of the model"""
+    return 0 if not f else {"k": 0, "x": 10, "p": 20}[f[0]] + int(f[2:])
+
+
+def hist_val(d):
+    """the history as input of C07.Run op 6, and the list of sign-step indexes in request order"""
+    names = {}
+
+    def nid(n):
+        if not n:
+            return 0
+        return names.setdefault(n, 100 + len(names))
+    cfg = [[nid(k["name"]), nid(k.get("alias", "")), 1 if k.get("token") else 0, fid(k.get("keyfile", "")), fid(k.get("x509", "")),
+            fid(k.get("pgp", ""))] for k in d["keys"]]
+    evs, idx = [], []
+    seen = set()          # (phase, name) requested so far
+    nflip = 0
+    for i, s in enumerate(d["steps"]):
+        k = s["kind"]
+        mode = s.get("mode", "")
+        if k == "setkey":
+            status = {"": 0, "remove": 1, "garbage": 2}[mode]
+            key = [KEYID.get(s.get("key", ""), 0), vpub(s["key_pub"])] if s.get("key_pub") else [0, [3, 0, 0, 0]]
+            evs.append([0, fid(s["file"]), status, key, vsrc(True, False, s.get("cert_descs") or [])])
+        elif k == "setx509":
+            status = 1 if mode == "remove" else 0
+            evs.append([1, fid(s["file"]), status, vsrc(s.get("format") == "der", False, s.get("cert_descs") or [])])
+        elif k == "setpgp":
+            status = 1 if mode == "remove" else 0
+            evs.append([2, fid(s["file"]), status, [[i2, vpub(p)] for i2, p in zip(s.get("ring_ids") or [], s.get("ring_pubs") or [])]])
+        elif k == "sign":
+            site, ct, is_pgp = HIST_SIGNERS[s["signer"]]
+            if d["expiry"] == "400ms":
+                fresh = (s["phase"], s["name"]) in seen
+            else:
+                fresh = d["expiry"] != "1ns"
+            if d.get("via") == "flip" and (d["expiry"] == "0" or not seen):
+                # exactly one access of the file token per request that is not answered from the cache: the key file was
+                # rewritten just before it
+                fk = d["flip"][nflip % len(d["flip"])]
+                evs.append([0, fid("kf1"), 0, [KEYID[fk], vpub(d["flip_pubs"][nflip % len(d["flip"])])], vsrc(True, False, [])])
+                nflip += 1
+            seen.add((s["phase"], s["name"]))
+            evs.append([3, nid(s["name"]), fresh, 3 if s.get("want_id") else 0, False, ct, 1 if is_pgp else 0, site, 7])
+            idx.append(i)
+    exp = {"0": 0, "1h": 3600, "1ns": 1, "400ms": 1}[d["expiry"]]
+    return [6, cfg, exp, [], [], [], evs], idx
+
+
+def hist_oracle(d, spec_fail, nontrivial, dist):
+    """model-free: every emitted signature verifies under the certificate it embeds, or the request was refused; without a
+    live cache entry a configuration that is mismatched at the time of the request must be refused"""
+    cur = {}
+    by = {k["name"]: k for k in d["keys"]}
+    n = 0
+    for i, s in enumerate(d["steps"]):
+        k = s["kind"]
+        if k in ("setkey", "setx509", "setpgp"):
+            cur[s["file"]] = s if not s.get("mode") else None
+            continue
+        if k != "sign":
+            continue
+        n += 1
+        o = s["obs"]
+        sg = s["signer"]
+        is_pgp = HIST_SIGNERS[sg][2]
+        kk = "hist/%s/%s/err%d" % (sg, d["expiry"], o["err"])
+        dist[kk] = dist.get(kk, 0) + 1
+        case = dict(d, failing_step=i)
+        where = "history %s (%s; cache expiry %s%s) step %d: sign %s with key name %s" % (
+            d["id"], d.get("note", ""), d["expiry"], "; through server.Handler() POST /sign" if d.get("via") == "server" else "", i, sg, s["name"])
+        if (o.get("err_text") or "").startswith("PANIC"):
+            spec_fail("C07:hist-panic:" + sg, where + ": " + o["err_text"][:160], case, False)
+        if o["err"] != 0:
+            if "[output file exists]" in (o.get("err_text") or ""):
+                spec_fail("C07:spec:hist-output-after-error:" + sg, where + ": refused but an output file was written", case)
+            nontrivial.add("hist:%s:%s:%s:refused%d" % (d["id"].split("-")[-1], sg, d["expiry"], o["err"]))
+            continue
+        nontrivial.add("hist:%s:%s:%s:signed" % (d["id"].split("-")[-1], sg, d["expiry"]))
+        made = o.get("made_by")
+        if o["verr"] not in ("", "n/a"):
+            spec_fail("C07:spec:hist-output-unverifiable:" + sg, where + ": the emitted signature does not verify under the certificate it names: " + o["verr"][:120], case)
+        elif o["under_leaf"] == 0:
+            emb = ("PGP certificate of %s" % o["pgp_issuer"]) if is_pgp else ("leaf certificate of %s" % o["leaf_for"])
+            spec_fail("C07:spec:hist-signature-not-under-embedded-certificate:" + sg,
+                      where + ": emitted signature embeds the %s but the value was made by %s and does not verify under it" % (emb, made), case)
+        elif made is not None and not is_pgp and o["leaf_for"] and o["leaf_for"] not in made:
+            spec_fail("C07:spec:hist-leaf-other-key:" + sg, where + ": embedded leaf is for %s, value made by %s" % (o["leaf_for"], made), case)
+        elif o["checks"] == 0 and o["verr"] == "n/a":
+            spec_fail("C07:hist-output-not-inspected:" + sg, where + ": no signature found in the output", case, False)
+        # the configuration in force (only decidable here when no cached key can be in play)
+        if d["expiry"] in ("0", "1ns") and d.get("via") != "flip":
+            sec = by.get(s["name"])
+            if sec is not None and sec.get("alias"):
+                sec = by.get(sec["alias"])
+            kf = cur.get((sec or {}).get("keyfile", "")) if sec else None
+            if sec is None or kf is None:
+                spec_fail("C07:spec:hist-signed-without-key:" + sg, where + ": signed although the section has no readable key file", case)
+                continue
+            key = kf.get("key")
+            if is_pgp:
+                ring = (cur.get(sec.get("pgp", "")) or {}).get("ring")
+                if ring != [key]:
+                    spec_fail("C07:spec:hist-mismatch-signed:" + sg, where + ": signed with key file %s while the PGP certificate file holds %s" % (key, ring), case)
+            else:
+                src = cur.get(sec.get("x509", "")) if sec.get("x509") else (kf if kf.get("p12") else None)
+                descs = (src or {}).get("cert_descs") or []
+                if not descs or descs[0]["for"] != key:
+                    spec_fail("C07:spec:hist-mismatch-signed:" + sg, where + ": signed with key file %s while the certificate source begins with %s" %
+                              (key, descs[0]["name"] if descs else None), case)
+    return n
+
+
+def run_hist_replay(ctx, cases):
+    """replay: run the recorded histories again through the real code"""
+    hs = [c for c in cases if c.get("op") == "hist"]
+    if not hs:
+        return cases
+    path = os.path.join(ctx.scratch, "hist-replay.json")
+    json.dump([dict((k, v) for k, v in h.items() if k != "failing_step") for h in hs], open(path, "w"))
+    GOENV["VERIF_REPO"] = REPO
+    rc, out, err = ctx.drv(["c07hist", path], timeout=600)
+    if rc != 0:
+        ctx.violation("C07:driver-crash", "driver c07hist failed on replay: %s" % err[-600:], {"stderr": err[-3000:]}, False)
+        return [c for c in cases if c.get("op") != "hist"]
+    return [c for c in cases if c.get("op") != "hist"] + [json.loads(l) for l in out.splitlines() if l.strip()]
+
+
 def run(ctx, replay=None):
     st = ctx.prepare(["C07_gen"], ["C07"], "C07.Run")
     if not st["harness_ok"]:
         return ctx.finish("proof", ctx.proof_coverage([], FP), [])
     if replay:
         rp = json.load(open(replay))
-        cases = rp.get("cases", [])
+        cases = run_hist_replay(ctx, rp.get("cases", []))
     else:
         cases = []
         env_relic = os.path.join(BUILD, "relic")
@@ -73,7 +211,7 @@ def run(ctx, replay=None):
             ctx.violation("C07:relic-build", "relic binary does not build: " + err[-300:], {"stderr": err[-2000:]}, False)
         GOENV["VERIF_RELIC"] = env_relic        # ctx.drv passes GOENV to the driver
         GOENV["VERIF_REPO"] = REPO
-        for cmd in ("c07lib", "c07"):
+        for cmd in ("c07lib", "c07", "c07hist"):
             rc, out, err = ctx.drv([cmd], timeout=600)
             if rc != 0:
                 ctx.violation("C07:driver-crash", "driver %s failed: %s" % (cmd, err[-600:]), {"stderr": err[-3000:]}, False)
@@ -82,12 +220,12 @@ def run(ctx, replay=None):
     nontrivial = set()
     dist = {}
 
-    def spec_fail(key, detail, case):
+    def spec_fail(key, detail, case, found=True):
         nonlocal n_spec
         n_spec += 1
         if key not in seen_keys and len(seen_keys) < 10:      # one concrete input per finding key
             seen_keys.add(key)
-            ctx.violation(key, detail, {"cases": [case]})
+            ctx.violation(key, detail, {"cases": [case]}, found)
 
     def corr_fail(key, detail, case):
         nonlocal n_corr
@@ -98,9 +236,22 @@ def run(ctx, replay=None):
     vals, meta = [], []
     other_refusals = {}
     seen_keys = set()
+    n_hist, n_hist_steps, hist_skipped = 0, 0, 0
     for d in cases:
         op = d["op"]
         n_eval += 1
+        if op == "hist":
+            n_hist += 1
+            k = hist_oracle(d, spec_fail, nontrivial, dist)
+            n_hist_steps += k
+            n_eval += k - 1
+            if d["expiry"] == "400ms" and not d["timing_ok"]:
+                hist_skipped += 1          # the machine stalled: which entries were fresh is not known; the oracle above still applied
+                continue
+            v, idx = hist_val(d)
+            vals.append(v)
+            meta.append(dict(d, _idx=idx))
+            continue
         if op == "same":
             a, b = d["a"], d["b"]
             invalid = "on-p384" in a["name"] or "on-p384" in b["name"]      # a point placed on a curve it is not on: cannot be parsed from any certificate
@@ -284,6 +435,34 @@ def run(ctx, replay=None):
                         corr_fail("C07:correspondence:lookup", "model %s vs GetKey(%s) -> %s/%s (%s)" % (mo, rq["name"], rq["key_for"], rq["x509"], rq.get("err")), d)
                     if mstatus == 0 and not magrees:
                         corr_fail("C07:correspondence:lookup-spec", "model lookup disagrees with spec_resolve for %s" % rq["name"], d)
+            elif op == "hist":
+                if len(m) != len(d["_idx"]):
+                    corr_fail("C07:correspondence:history", "model answered %d requests, history %s has %d" % (len(m), d["id"], len(d["_idx"])), d)
+                    continue
+                for i, mo in zip(d["_idx"], m):
+                    s = d["steps"][i]
+                    o = s["obs"]
+                    mstatus, mleaf, _, mkey, ment, mspec = mo
+                    what = "history %s (expiry %s) step %d sign %s/%s" % (d["id"], d["expiry"], i, s["signer"], s["name"])
+                    bad = None
+                    if mstatus == 0 and o["err"] != 0 and any(t in (o.get("err_text") or "") for t in OTHER_REFUSALS):
+                        kk = s["signer"] + ": " + o["err_text"][-60:]          # refused for a reason unrelated to the key/certificate relation
+                        other_refusals[kk] = other_refusals.get(kk, 0) + 1
+                    elif (mstatus == 0) != (o["err"] == 0):
+                        bad = "model status %d vs implementation error class %d (%s)" % (mstatus, o["err"], o.get("err_text", "")[:80])
+                    elif mstatus in EXACT_ERR and o["err"] != mstatus and d.get("via") != "server":      # (the server answers 500 without the reason)
+                        bad = "model refuses with %d, implementation with class %d (%s)" % (mstatus, o["err"], o.get("err_text", "")[:80])
+                    elif mstatus == 0 and o["leaf"] != -1 and o["leaf"] != mleaf:
+                        bad = "model leaf %d vs embedded leaf %d" % (mleaf, o["leaf"])
+                    elif mstatus == 0 and o.get("made_by") is not None and len(o["made_by"]) == 1 and KEYID[o["made_by"][0]] != mkey:
+                        bad = "model signs with key %d, the value was made by %s" % (mkey, o["made_by"])
+                    elif mstatus == 0 and o["pgp_entity"] != -1 and o["pgp_entity"] != ment:
+                        bad = "model names PGP certificate %d, output names %d" % (ment, o["pgp_entity"])
+                    elif mstatus == 0 and not mspec:
+                        bad = "the model's own output fails spec_output_ok"
+                    if bad:
+                        corr_fail("C07:correspondence:history", what + ": " + bad, dict(d, failing_step=i))
+                        break
             elif op == "e2e":
                 status, leaf, chain = m[0], m[1], m[2]
                 ok = d["exit"] == 0
@@ -300,12 +479,16 @@ def run(ctx, replay=None):
     cov = ctx.proof_coverage([
         "srcgen: SameKey type switch (cases, comparisons, Signer normalisation), Leaf index of parseCertificates(Der), LoadTokenCertificates/LoadX509KeyPair guards, "
         "Chain() conditions, pkcs7 builder and xmldsig guards with call order and certificate indexes, per-site key/certificate sources of 15 signing sites, "
-        "config/tokencache/InitKey/filetoken lookup conditions",
+        "config/tokencache/InitKey/filetoken lookup conditions; history: inventory of package-level variables (internal/signinit, lib/certloader, signers, "
+        "token/tokencache, token/filetoken, signers/{cosign,apk,pgp,rpm,deb}), field lists of Cache/cachedKey/fileToken/fileKey/Certificate/Server, data-flow tables of "
+        "InitKey / Init / serveSign / signCmd (bundle returned or signed with = result of LoadTokenCertificates of this invocation), Init certificate-type conditions, "
+        "CertTypes of the 18 signer modules",
         "harness drv-c07: real relic functions in process + real relic binary on functest fixtures; keys, certificates, PKCS#12 and PGP material minted per run "
         "(Go crypto, go-pkcs12, go-crypto openpgp); output inspection by raw certificate scan, own APK v2 / cosign / PGP packet readers, and relic's verifier as extractor "
         "with the signature value re-checked under the true key by Go crypto",
         "symbolic signatures in the model (value = key x message); X.509/PGP parsing, the third-party PGP/RPM signing libraries and pkcs11/cloud tokens are not modelled "
-        "(file token stands for all tokens); curve identifiers: SameKey ignores them, theorems assume keys with equal coordinates lie on the same curve (true of parsed keys)"], FP)
+        "(file token stands for all tokens); histories: requests are sequential (no interleaving of two requests), the clock enters as a per-request "
+        "'cached entry still fresh' flag, the file token re-reads the key file on every GetKey; curve identifiers: SameKey ignores them, theorems assume keys with equal coordinates lie on the same curve (true of parsed keys)"], FP)
     samples = [dict((k, d.get(k)) for k in ("op", "scenario", "sigtype", "key", "exit", "found_for", "rv_leaf_for", "sig_true_key")) for d in cases if d["op"] == "e2e"][5:8]
     cov.update({"evaluations": n_eval, "distinct_nontrivial": len(nontrivial),
                 "rule": "in process: SameKey on all operand pairs (private/public x RSA, P-256 x2, P-384, Ed25519, same modulus other exponent, same X other Y, non-keys); "
@@ -313,8 +496,13 @@ def run(ctx, replay=None):
                         "Chain() on every ordered selection x every leaf position; pkcs7 builder / xmldsig.Sign / SignEnveloping with a counting signer on every list of <= 2 certificates; "
                         "config alias + file token + tokencache + InitKey request sequences. End to end: relic sign for 50+ key sections (chain permutations, wrong key same/other "
                         "algorithm, same modulus, PKCS#12 with/without overriding file, DER, aliases with decoy settings, PGP rings) x 18 signature types. "
+                        "Histories in one process (token/open + tokencache + signinit.Init + signer module, and POST /sign through the real server.Handler() with production token opening; cache expiry 0 / 1h / 1ns / 400ms real clock): sign, replace the key "
+                        "file, sign; replace the certificate only; two keys alternating under one name; both replaced; alias and shared certificate file; PKCS#12 key files; "
+                        "files removed / corrupted / restored; first use mismatched; entries expiring mid-history; random histories; for cosign, APK v2, pgp, rpm, deb "
+                        "(no second guard) and ps, jar, appmanifest, vsix (second guard). "
                         "distinct_nontrivial = accepted configurations plus refused genuinely mismatched ones",
                 "samples": samples, "input_distribution": dist, "unrelated_refusals": other_refusals, "spec_mismatches": n_spec, "model_mismatches": n_corr,
+                "histories": n_hist, "history_sign_steps": n_hist_steps, "histories_without_correspondence_timing": hist_skipped,
                 "refuted_witnesses": ["same_key_full_refuted / load_full_refuted: SameKey ignores the curve identifier; witness PEc 1 5 7 vs PEc 2 5 7 "
                                       "(real code: SameKey(E1, {P-384, E1.X, E1.Y}) = true; not reachable through certificate parsing, which checks the point is on the curve)"]})
     return ctx.finish("proof", cov, ["symbolic signature idealisation", "EC keys with equal coordinates are on the same curve", "file token stands for all token types"])
